@@ -135,13 +135,61 @@ func (x *lsym) String() string {
 func lleaf(op, s string) *lsym          { return &lsym{op: op, s: s} }
 func lnode(op string, a ...*lsym) *lsym { return &lsym{op: op, args: a} }
 
+// luaLit is one literal of a path condition.
+type luaLit struct {
+	neg bool
+	c   *lsym
+}
+
+func (l luaLit) String() string {
+	if l.neg {
+		return "!" + l.c.String()
+	}
+	return l.c.String()
+}
+
+// lite builds if-then-else values; the clamp idioms `if a < b then x = a else x = b`
+// are normalised to min / max so that an explicit clamp and math.min/max agree.
+func lite(c, a, b *lsym) *lsym {
+	if (c.op == "<" || c.op == "<=") && len(c.args) == 2 {
+		x, y := c.args[0].String(), c.args[1].String()
+		switch {
+		case a.String() == x && b.String() == y:
+			return lnode("min", c.args[0], c.args[1])
+		case a.String() == y && b.String() == x:
+			return lnode("max", c.args[0], c.args[1])
+		}
+	}
+	return lnode("ite", c, a, b)
+}
+
+// lnot pushes a negation into a comparison.
+func lnot(x *lsym) *lsym {
+	if len(x.args) == 2 {
+		switch x.op {
+		case "<":
+			return lnode("<=", x.args[1], x.args[0])
+		case "<=":
+			return lnode("<", x.args[1], x.args[0])
+		case "==":
+			return lnode("~=", x.args[0], x.args[1])
+		case "~=":
+			return lnode("==", x.args[0], x.args[1])
+		}
+	}
+	if x.op == "not" && len(x.args) == 1 {
+		return x.args[0]
+	}
+	return lnode("not", x)
+}
+
 // luaEffect is a redis.call executed under a path condition.
 type luaEffect struct {
-	cond []string
+	cond []luaLit
 	call *lsym
 }
 type luaReturn struct {
-	cond []string
+	cond []luaLit
 	val  *lsym
 }
 
@@ -149,7 +197,7 @@ type luaEval struct {
 	toks    []luaTok
 	pos     int
 	env     map[string]*lsym
-	cond    []string
+	cond    []luaLit
 	effects []luaEffect
 	returns []luaReturn
 	err     error
@@ -236,7 +284,7 @@ func (e *luaEval) stmt() {
 		if !e.blockEnd() {
 			v = e.expr(0)
 		}
-		e.returns = append(e.returns, luaReturn{append([]string{}, e.cond...), v})
+		e.returns = append(e.returns, luaReturn{append([]luaLit{}, e.cond...), v})
 		if !e.blockEnd() {
 			e.fail("statement after return")
 		}
@@ -270,27 +318,33 @@ func (e *luaEval) ifStmt() {
 	for k, v := range e.env {
 		base[k] = v
 	}
-	baseCond := append([]string{}, e.cond...)
+	baseCond := append([]luaLit{}, e.cond...)
 	type arm struct {
 		c   *lsym
 		env map[string]*lsym
 	}
 	var arms []arm
-	var negs []string
+	var negs []luaLit
 	returnsBefore := len(e.returns)
+	armsReturned, armsTotal := 0, 0
 	runArm := func(c *lsym) {
+		nret := len(e.returns)
 		e.env = map[string]*lsym{}
 		for k, v := range base {
 			e.env[k] = v
 		}
-		e.cond = append(append([]string{}, baseCond...), negs...)
+		e.cond = append(append([]luaLit{}, baseCond...), negs...)
 		if c != nil {
-			e.cond = append(e.cond, c.String())
+			e.cond = append(e.cond, luaLit{false, c})
 		}
 		e.block(true)
 		arms = append(arms, arm{c, e.env})
+		armsTotal++
+		if len(e.returns) > nret {
+			armsReturned++
+		}
 		if c != nil {
-			negs = append(negs, "!"+c.String())
+			negs = append(negs, luaLit{true, c})
 		}
 	}
 	c := e.expr(0)
@@ -343,18 +397,19 @@ func (e *luaEval) ifStmt() {
 					continue
 				}
 			}
-			merged = lnode("ite", a.c, nv, merged)
+			merged = lite(a.c, nv, merged)
 		}
 		_ = changed
 		e.env[k] = merged
 	}
-	if armReturned && !hasElse {
-		// code after an if whose arm returned runs under the negated conditions
-		e.cond = append(e.cond, negs...)
-	}
-	if armReturned && hasElse {
-		all := true
-		_ = all
+	if armReturned {
+		switch {
+		case armsReturned != armsTotal:
+			e.fail("an if statement in which only some arms return")
+		case !hasElse:
+			// code after an if all of whose arms returned runs under the negated conditions
+			e.cond = append(e.cond, negs...)
+		}
 	}
 }
 
@@ -393,7 +448,7 @@ func (e *luaEval) expr(min int) *lsym {
 
 func (e *luaEval) unary() *lsym {
 	if e.accept("kw", "not") {
-		return lnode("not", e.unary())
+		return lnot(e.unary())
 	}
 	if e.accept("sym", "-") {
 		return lnode("-", lleaf("num", "0"), e.unary())
@@ -478,7 +533,7 @@ func (e *luaEval) postfix() *lsym {
 				}
 				args[0] = lleaf("str", strings.ToLower(args[0].s))
 				v = lnode("call", args...)
-				e.effects = append(e.effects, luaEffect{append([]string{}, e.cond...), v})
+				e.effects = append(e.effects, luaEffect{append([]luaLit{}, e.cond...), v})
 			case "math.max", "math.min", "math.floor", "math.ceil":
 				v = lnode(strings.TrimPrefix(path, "math."), args...)
 			default:
@@ -506,7 +561,126 @@ func luaIdx(x *lsym, op string) int {
 	return n
 }
 
+// luaValue evaluates a symbolic value for one concrete assignment of its
+// leaves (kind: 0 not evaluable, 1 number, 2 boolean). Used to decide guards
+// that only compare the counter with the limit / with constants, whatever
+// spelling (mirrored chains, negations, early returns) the script uses.
+func luaValue(x *lsym, leaf func(*lsym) (float64, bool)) (num float64, b bool, kind int) {
+	if v, ok := leaf(x); ok {
+		return v, false, 1
+	}
+	switch x.op {
+	case "num":
+		var f float64
+		if _, err := fmt.Sscanf(x.s, "%g", &f); err != nil {
+			return 0, false, 0
+		}
+		return f, false, 1
+	case "true":
+		return 0, true, 2
+	case "false":
+		return 0, false, 2
+	}
+	var nums []float64
+	var bools []bool
+	kinds := 0
+	for _, a := range x.args {
+		n, bb, k := luaValue(a, leaf)
+		if k == 0 {
+			return 0, false, 0
+		}
+		nums, bools = append(nums, n), append(bools, bb)
+		kinds |= k
+	}
+	if x.op == "ite" && len(x.args) == 3 {
+		_, c, k := luaValue(x.args[0], leaf)
+		if k != 2 {
+			return 0, false, 0
+		}
+		if c {
+			return luaValue(x.args[1], leaf)
+		}
+		return luaValue(x.args[2], leaf)
+	}
+	switch {
+	case len(nums) == 2 && kinds == 1:
+		p, q := nums[0], nums[1]
+		switch x.op {
+		case "+":
+			return p + q, false, 1
+		case "-":
+			return p - q, false, 1
+		case "*":
+			return p * q, false, 1
+		case "/":
+			if q == 0 {
+				return 0, false, 0
+			}
+			return p / q, false, 1
+		case "max":
+			if p > q {
+				return p, false, 1
+			}
+			return q, false, 1
+		case "min":
+			if p < q {
+				return p, false, 1
+			}
+			return q, false, 1
+		case "<":
+			return 0, p < q, 2
+		case "<=":
+			return 0, p <= q, 2
+		case "==":
+			return 0, p == q, 2
+		case "~=":
+			return 0, p != q, 2
+		}
+	case len(bools) == 2 && kinds == 2:
+		switch x.op {
+		case "and":
+			return 0, bools[0] && bools[1], 2
+		case "or":
+			return 0, bools[0] || bools[1], 2
+		case "==":
+			return 0, bools[0] == bools[1], 2
+		case "~=":
+			return 0, bools[0] != bools[1], 2
+		}
+	case len(bools) == 1 && kinds == 2 && x.op == "not":
+		return 0, !bools[0], 2
+	}
+	return 0, false, 0
+}
+
+// luaHolds evaluates a path condition (conjunction of literals); ok=false when not evaluable.
+func luaHolds(cond []luaLit, leaf func(*lsym) (float64, bool)) (holds, ok bool) {
+	for _, l := range cond {
+		_, b, k := luaValue(l.c, leaf)
+		if k != 2 {
+			return false, false
+		}
+		if b == l.neg {
+			return false, true
+		}
+	}
+	return true, true
+}
+
+func luaWalk(x *lsym, f func(*lsym)) {
+	if x == nil {
+		return
+	}
+	f(x)
+	for _, a := range x.args {
+		luaWalk(a, f)
+	}
+}
+
 // c08periodRoles checks the period script and returns the ARGV positions of its roles.
+// The reply and the expiry guard are decided semantically: the path conditions
+// are evaluated for concrete counter/limit pairs on both sides of every
+// boundary, so any equivalent spelling of the comparison chain is accepted.
 func c08periodRoles(src string) (map[string]int, string) {
 	e, err := luaRun(src)
 	if err != nil {
@@ -520,40 +694,78 @@ func c08periodRoles(src string) (map[string]int, string) {
 		return nil, fmt.Sprintf("the counter is %s under %v, expected an unconditional call(\"incrby\",KEYS[1],1): every take must count exactly once", inc.call, inc.cond)
 	}
 	cur := inc.call.String()
-	first := "(" + "1==" + cur + ")"
 	if len(exp.call.args) != 3 || exp.call.args[0].s != "expire" || exp.call.args[1].String() != "KEYS[1]" {
 		return nil, fmt.Sprintf("second redis call is %s, expected call(\"expire\",KEYS[1],window)", exp.call)
-	}
-	if len(exp.cond) != 1 || exp.cond[0] != first {
-		return nil, fmt.Sprintf("the expiry is set under %v, expected exactly when the counter == 1: otherwise every take would push the window's end (or the counter would never expire)", exp.cond)
 	}
 	window := luaIdx(exp.call.args[2], "argv")
 	if window == 0 {
 		return nil, fmt.Sprintf("the expiry is %s, not an ARGV element", exp.call.args[2])
 	}
-	if len(e.returns) != 3 {
-		return nil, fmt.Sprintf("%d return statements, expected three (below / at / above the limit)", len(e.returns))
+	// the expiry is set exactly on the first hit (the counter is ≥ 1 after INCRBY)
+	for _, c := range []float64{1, 2, 3, 7} {
+		holds, ok := luaHolds(exp.cond, func(x *lsym) (float64, bool) { return c, x.String() == cur })
+		if !ok {
+			return nil, fmt.Sprintf("the expiry is set under %v, which is not a test of the counter against constants", exp.cond)
+		}
+		if holds != (c == 1) {
+			return nil, fmt.Sprintf("the expiry is set under %v, expected exactly when the counter == 1: otherwise every take would push the window's end (or the counter would never expire)", exp.cond)
+		}
 	}
-	// return 1 under (cur < limit); return 2 under !(cur<limit), (limit == cur); return 0 otherwise
-	r1, r2, r0 := e.returns[0], e.returns[1], e.returns[2]
-	if len(r1.cond) != 1 || !strings.HasPrefix(r1.cond[0], "("+cur+"<ARGV[") {
-		return nil, fmt.Sprintf("first reply is under %v, expected counter < limit", r1.cond)
+	// the limit: the one ARGV position the reply conditions read
+	lims := map[int]bool{}
+	for _, r := range e.returns {
+		for _, l := range r.cond {
+			luaWalk(l.c, func(x *lsym) {
+				if x.op == "argv" {
+					lims[luaIdx(x, "argv")] = true
+				}
+			})
+		}
 	}
-	var limit int
-	fmt.Sscanf(strings.TrimPrefix(r1.cond[0], "("+cur+"<ARGV["), "%d", &limit)
-	lt := fmt.Sprintf("(%s<ARGV[%d])", cur, limit)
-	eq := fmt.Sprintf("(ARGV[%d]==%s)", limit, cur)
-	if limit == 0 || r1.cond[0] != lt || r1.val.String() != "1" {
-		return nil, fmt.Sprintf("below the limit (%v) the script answers %s, expected 1 under %s", r1.cond, r1.val, lt)
+	if len(lims) != 1 {
+		return nil, fmt.Sprintf("the replies depend on %d ARGV positions, expected exactly the limit", len(lims))
 	}
-	if len(r2.cond) != 2 || r2.cond[0] != "!"+lt || r2.cond[1] != eq || r2.val.String() != "2" {
-		return nil, fmt.Sprintf("at the limit the script answers %s under %v, expected 2 under [!%s %s]", r2.val, r2.cond, lt, eq)
-	}
-	if len(r0.cond) != 2 || r0.cond[0] != "!"+lt || r0.cond[1] != "!"+eq || r0.val.String() != "0" {
-		return nil, fmt.Sprintf("above the limit the script answers %s under %v, expected 0 under [!%s !%s]", r0.val, r0.cond, lt, eq)
+	limit := 0
+	for k := range lims {
+		limit = k
 	}
 	if limit == window {
 		return nil, "limit and window read the same ARGV position"
+	}
+	limName := fmt.Sprintf("ARGV[%d]", limit)
+	for _, L := range []float64{1, 3} {
+		for c := float64(1); c <= L+2; c++ {
+			leaf := func(x *lsym) (float64, bool) {
+				switch x.String() {
+				case cur:
+					return c, true
+				case limName:
+					return L, true
+				}
+				return 0, false
+			}
+			want := "0"
+			switch {
+			case c < L:
+				want = "1"
+			case c == L:
+				want = "2"
+			}
+			got := ""
+			for _, r := range e.returns {
+				holds, ok := luaHolds(r.cond, leaf)
+				if !ok {
+					return nil, fmt.Sprintf("a reply is given under %v, which is not a comparison of the counter with the limit", r.cond)
+				}
+				if holds {
+					got = r.val.String()
+					break
+				}
+			}
+			if got != want {
+				return nil, fmt.Sprintf("with counter %v and limit %v the script answers %q, expected %s (1 below the limit, 2 at the limit, 0 above)", c, L, got, want)
+			}
+		}
 	}
 	return map[string]int{"limit": limit, "window": window}, ""
 }
@@ -660,7 +872,7 @@ func c08tokenRoles(src string) (map[string]int, string) {
 	}
 	ttl := fmt.Sprintf("floor((%s*2))", "("+capv.String()+"/"+rate.String()+")")
 	ttlAlt := fmt.Sprintf("floor((2*%s))", "("+capv.String()+"/"+rate.String()+")")
-	wantNew := lnode("ite", allowed, lnode("-", filled, allowed.args[0]), filled).String()
+	wantNew := lite(allowed, lnode("-", filled, allowed.args[0]), filled).String()
 	got := map[string][2]string{}
 	for _, c := range setex {
 		if len(c.args) != 4 {
